@@ -61,6 +61,81 @@ def branch_contexts(root):
     return out
 
 
+def checked_sub_match(i):
+    """{'a', 'b', 'guard'} for `match a.checked_sub(b) { Some(d) [if guard] => d, <others diverge> }` (also if-let/let-else spellings)"""
+    i = strip(i)
+    if i.get("k") != "Match":
+        return None
+    sc = strip(i["scrut"])
+    if not (sc.get("k") == "MethodCall" and sc["method"] == "checked_sub" and len(sc["args"]) == 1):
+        return None
+    out = None
+    for a in i["arms"]:
+        p = a["pat"]
+        body = L.strip_try(a["body"])
+        if p.get("k") == "TupleStruct" and (p.get("path") or "").endswith("Some") and p["pats"][0].get("k") == "Bind" and body.get("k") == "Path" and body.get("id") == p["pats"][0]["id"]:
+            out = {"a": sc["recv"], "b": sc["args"][0], "guard": a.get("guard")}
+        elif not diverges_err(a["body"]):
+            return None
+    return out
+
+
+def diverges_err(e):
+    e = L.strip_try(e)
+    if e.get("k") == "Block" and not e.get("tail") and len(e.get("stmts", [])) == 1:
+        e = L.strip_try(e["stmts"][0].get("e") or {})
+    if e.get("k") == "Block" and e.get("tail") is not None and not e.get("stmts"):
+        e = L.strip_try(e["tail"])
+    return e.get("k") == "Ret" and (declared(strip(e.get("e") or {})) or "").endswith("::Err")
+
+
+def uses_names(env, n):
+    return n
+
+
+def refusal_atoms(block):
+    """conditions under which the block returns Err, as atoms ('eq0', x) / ('lt', a, b)"""
+    atoms = set()
+
+    def cond_atoms(c, positive=True):
+        c = strip(c)
+        if c.get("k") == "Binary" and c.get("op") in ("Or", "And"):
+            # refusal on (A || B) refuses on each; on (A && B) neither alone — only Or (positive) / And (negated) distribute
+            if (c["op"] == "Or") == positive:
+                cond_atoms(c["l"], positive)
+                cond_atoms(c["r"], positive)
+            return
+        if c.get("k") == "Unary" and c.get("op") == "Not":
+            cond_atoms(c["e"], not positive)
+            return
+        if c.get("k") == "Binary":
+            l, r, op = tir.place(c["l"]) or L.local_name(c["l"]), tir.place(c["r"]) or L.local_name(c["r"]), c["op"]
+            if not positive:
+                op = {"Eq": "Ne", "Ne": "Eq", "Lt": "Ge", "Ge": "Lt", "Gt": "Le", "Le": "Gt"}.get(op, op)
+            if op == "Eq" and tir.lit_int(c["r"]) == 0 and l:
+                atoms.add(("eq0", l))
+            if op == "Eq" and tir.lit_int(c["l"]) == 0 and r:
+                atoms.add(("eq0", r))
+            if op == "Lt" and l and r:
+                atoms.add(("lt", l, r))
+            if op == "Gt" and l and r:
+                atoms.add(("lt", r, l))
+    for x in tir.walk(block):
+        if x.get("k") == "If" and x["cond"].get("k") != "LetCond":
+            if diverges_err(x["then"]):
+                cond_atoms(x["cond"], True)
+            elif x.get("else") is not None and diverges_err(x["else"]):
+                cond_atoms(x["cond"], False)
+        cs = checked_sub_match(x) if x.get("k") == "Match" else None
+        if cs is not None:
+            a, b = tir.place(cs["a"]) or L.local_name(cs["a"]), tir.place(cs["b"]) or L.local_name(cs["b"])
+            if a and b:
+                atoms.add(("lt", a, b))
+            if cs["guard"] is not None:
+                cond_atoms(cs["guard"], False)      # the Some arm is refused when its guard is false
+    return atoms
+
+
 def advance_rule(F, rep, blk):
     env = {}
     skipname = None
@@ -68,8 +143,12 @@ def advance_rule(F, rep, blk):
         if s.get("k") == "Let" and s["pat"].get("k") == "Bind":
             i = strip(s["init"])
             try:
+                cs = checked_sub_match(i)
                 if i.get("k") == "MethodCall" and i["method"] == "saturating_sub":
                     env[s["pat"]["name"]] = linear.add(linear.lin(i["recv"], env), linear.lin(i["args"][0], env), -1)
+                elif cs is not None:
+                    # `match a.checked_sub(b) { Some(d) [if g] => d, _ => return Err(..) }`: the value is a - b where it exists
+                    env[s["pat"]["name"]] = linear.add(linear.lin(cs["a"], env), linear.lin(cs["b"], env), -1)
                 else:
                     env[s["pat"]["name"]] = linear.lin(i, env)
             except linear.NonLinear:
@@ -127,8 +206,50 @@ def advance_rule(F, rep, blk):
     else:
         rep.cannot("advance.value", READ, L.Unsupported(blk, "skip value is not a let-bound linear expression"))
     # the error exit of the block is taken exactly when the jump is impossible
-    conds = [tir.pretty(x["cond"]) for x in tir.walk(blk["then"]) if x.get("k") == "If"]
-    rep.ob("advance.guard", any("raw_len Eq 0" in c and "Lt end_offset" in c for c in conds), READ, "guard", "the block must refuse to skip when raw_len is 0 or fewer than a Game End's bytes remain")
+    atoms = refusal_atoms(blk["then"])
+    want_lt = ("lt", uses_names(env, "remaining"), uses_names(env, "end_offset"))
+    ok = ("eq0", "raw_len") in atoms and any(a[0] == "lt" and a[1] == "remaining" and a[2] == "end_offset" for a in atoms)
+    rep.ob("advance.guard", ok, READ, "guard", "the block must refuse to skip when raw_len is 0 or fewer than a Game End's bytes remain; refusal conditions found: %s" % sorted(atoms))
+
+
+def skip_arm_ok(F, arm_body, branch):
+    """the skip branch builds Frame::with_capacity(0, <version of the start block>, &port_occupancy(<the start block>))"""
+    lets = {}
+    for n in tir.walk(arm_body):
+        if n.get("k") == "Let" and n["pat"].get("k") == "Bind" and n.get("init") is not None:
+            lets[n["pat"].get("id")] = n["init"]
+
+    def resolve(e, depth=0):
+        s = strip(e)
+        while s.get("k") == "Try" or (s.get("k") == "MethodCall" and s["method"] in ("ok_or", "ok_or_else", "as_ref", "unwrap", "expect")):
+            s = strip(s["e"] if s.get("k") == "Try" else s["recv"])
+        if s.get("k") == "Path" and s.get("res") == "local" and s.get("id") in lets and depth < 4:
+            return resolve(lets[s["id"]], depth + 1)
+        return s
+
+    for c in tir.walk(branch):
+        if c.get("k") == "Call" and declared(c) == "frame::mutable::Frame::with_capacity" and len(c["args"]) == 3:
+            cap, ver, ports = c["args"]
+            if tir.lit_int(cap) != 0:
+                return False
+            v = resolve(ver)
+            # version: start.slippi.version, possibly via start.as_ref().map(|s| s.slippi.version)
+            start_of_version = None
+            if v.get("k") == "Field" and v["name"] == "version":
+                start_of_version = resolve(strip(strip(v["base"]).get("base") or {}))
+            elif v.get("k") == "MethodCall" and v["method"] == "map":
+                cl = strip(v["args"][0])
+                if cl.get("k") == "Closure" and tir.pretty(cl["body"]).endswith(".slippi.version"):
+                    start_of_version = resolve(v["recv"])
+            p = strip(ports)
+            start_of_ports = None
+            if p.get("k") == "Call" and declared(p) == "game::port_occupancy":
+                start_of_ports = resolve(p["args"][0])
+            if start_of_version is None or start_of_ports is None:
+                return False
+            a, b = tir.place(start_of_version), tir.place(start_of_ports)
+            return a is not None and a == b and a.split(".")[-1] == "start"
+    return False
 
 
 def zero_frames_rule(F, rep):
@@ -139,22 +260,15 @@ def zero_frames_rule(F, rep):
     cap_ok = ver_ok = ports_ok = False
     if len(wc) == 1:
         a = [strip(x) for x in wc[0]["args"]]
-        cap = lets.get(a[0].get("id"))
-        if cap is not None:
-            m = strip(cap["init"])
-            if m.get("k") in ("Match", "If") and "skip_frames" in tir.pretty(m.get("scrut") or m.get("cond")):
-                vals = {}
-                if m["k"] == "Match":
-                    for arm in m["arms"]:
-                        key = arm["pat"]["e"].get("v") if arm["pat"].get("k") == "Lit" else "_"
-                        vals[key] = tir.lit_int(arm["body"])
-                else:
-                    vals[True] = tir.lit_int(L.strip_try(m["then"]))
-                cap_ok = vals.get(True) == 0
-        v = lets.get(a[1].get("id"))
-        ver_ok = v is not None and (tir.place(v["init"]) or "").endswith("start.slippi.version")
-        pl = lets.get(a[2].get("id"))
-        ports_ok = pl is not None and tir.pretty(pl["init"]).startswith("game::port_occupancy(&")
+        env = tir.LetEnv(root)
+        m = env.resolve(wc[0]["args"][0])
+        bb = tir.bool_branch(m) if m.get("k") in ("Match", "If") else None
+        if bb is not None and "skip_frames" in tir.pretty(bb[0]):
+            cap_ok = tir.lit_int(L.strip_try(bb[1])) == 0
+        vplace = env.place(wc[0]["args"][1], peel=False) or ""
+        ver_ok = vplace.endswith("start.slippi.version")
+        pl = env.resolve(wc[0]["args"][2])
+        ports_ok = pl.get("k") == "Call" and declared(pl) == "game::port_occupancy" and (tir.place(pl["args"][0]) or "") == vplace[:-len(".slippi.version")]
     rep.ob("zero.capacity", cap_ok, "io::slippi::de::parse_start", "capacity", "skip-frames must only change the capacity passed to Frame::with_capacity (0 instead of the default)")
     rep.ob("zero.same-triple", ver_ok and ports_ok, "io::slippi::de::parse_start", "triple", "version and ports passed to Frame::with_capacity must come from the parsed start (start.slippi.version, port_occupancy(&start))")
     arms, m, loop = peppifmt.reader_arms(F)
@@ -163,13 +277,10 @@ def zero_frames_rule(F, rep):
     touches = True
     if fa is not None:
         for mm in tir.walk(fa["body"]):
-            if mm.get("k") == "Match" and "skip_frames" in tir.pretty(mm["scrut"]):
-                for a in mm["arms"]:
-                    key = a["pat"]["e"].get("v") if a["pat"].get("k") == "Lit" else "_"
-                    if key is True:
-                        t = tir.pretty(a["body"])
-                        ok = "frame::mutable::Frame::with_capacity(0, start.slippi.version, &game::port_occupancy(start)).into()" in t
-                        touches = any((callee(x) or "").endswith("read_arrow_frames") for x in tir.walk(a["body"]))
+            bb = tir.bool_branch(mm) if mm.get("k") in ("Match", "If") else None
+            if bb is not None and "skip_frames" in tir.pretty(bb[0]):
+                ok = skip_arm_ok(F, fa["body"], bb[1])
+                touches = any((callee(x) or "").endswith("read_arrow_frames") for x in tir.walk(bb[1]))
     rep.ob("zero.slpp", ok and not touches, peppifmt.READ, "skip-arm", "the .slpp skip arm must build Frame::with_capacity(0, start.version, port_occupancy(start)) and leave the Arrow stream untouched")
 
 
